@@ -115,6 +115,10 @@ def worker(case):
                 what = (lb.split()[1] if len(lb.split()) > 1 else "?")
                 viols.append(("c19:parallel-differs-from-serial:%s" % what, "thread %d line %d: parallel %r vs serial %r" % (k, d, la[:200], lb[:200])))
         # sanity of the serial baseline itself (otherwise equality proves nothing)
+        hand = [ln for k in range(case["n"]) for ln in open(os.path.join(cdir, "ser", "t%d.log" % k)) if " handoff " in ln]
+        stats["contexts_opened_by_main_thread_and_read_by_a_worker"] = len([ln for ln in hand if " ok=1 " in ln])
+        if len(hand) != case["n"] or any(" ok=1 " not in ln for ln in hand):
+            return core.verdict(cid, "inconclusive", detail="handoff contexts did not read back in the serial run: %s" % hand[:2], case=case)
         bad = [ln for k in range(case["n"]) for ln in open(os.path.join(cdir, "ser", "t%d.log" % k)) if " rc=-" in ln and "write" in ln]
         if bad:
             return core.verdict(cid, "inconclusive", detail="serial baseline has failing writes: %s" % bad[:2], case=case)
